@@ -61,7 +61,8 @@ def protoAnswer (size : Nat) (ops sched : String) : String :=
   s!"inbox={showNats (ranks.map fun s => (st.inbox s).length)} " ++
   s!"outbox={showNats (ranks.map fun s => (st.outbox s).length)} " ++
   s!"steps={MpiProto.executed jobF (MpiProto.init (β := Nat) size prog) (nats sched)} " ++
-  s!"measure={MpiProto.measure st} measure0={MpiProto.measure (MpiProto.init (β := Nat) size prog)}"
+  s!"measure={MpiProto.measure st} measure0={MpiProto.measure (MpiProto.init (β := Nat) size prog)} " ++
+  s!"stepsleft={MpiProto.stepsLeft st} exact={MpiProto.exactSteps size prog}"
 
 def answer (toks : List String) : String :=
   match toks with
